@@ -21,6 +21,7 @@ func init() {
 			"R20.3 also: SpecURL is only ever set from an option argument, copied, or defaulted when empty — never rewritten. " +
 			"R20.1 also: the page is rendered into a buffer created by that very construction; R20.3 also: the spec document name is stored verbatim. " +
 			"R20.1 also: the serving closures capture no reader or buffer (no shared read position); R20.3 also: the common options are decoded into the flavour's options in place, the target is never replaced as a whole. " +
+			"R20.3 also: a configured UI / spec path is stored as given. " +
 			"NOT decided: the text html/template emits; behaviour of path.Clean/url.Parse.",
 		Run: runC20,
 	})
